@@ -182,7 +182,8 @@ class Gen:
             if goal == 'below' and s.size > 1: return r.randrange(1, s.size)
             return s.cap + 1 + r.randrange(8)
         if what in ('rmfront', 'rmback'):
-            goal = r.choice(['part', 'part', 'all', 'over', 'zero', 'allbut1'])
+            goal = r.choice(['part', 'part', 'all', 'over', 'zero', 'allbut1', 'huge'])
+            if goal == 'huge': return r.choice([2**64 - 1, 2**64 - 2, 2**64 - max(s.size, 1), 2**63, 2**63 - 1, 2**32, 2**64 - 1 - s.cap])
             if goal == 'zero': return 0
             if goal == 'all': return s.size
             if goal == 'over': return s.size + 1 + r.randrange(3)
@@ -203,7 +204,8 @@ class Gen:
             n = self.directed_size(s, what) if r.random() < 0.8 else None
             if n is None:
                 n = self.n()
-            n = min(n, 400)
+            if what not in ('rmfront', 'rmback'):
+                n = min(n, 400)
             if what == 'prepend': self.emit('prepend %d %s' % (v, hexs(data(r, n))), s.prepend(n))
             elif what == 'append': self.emit('append %d %s' % (v, hexs(data(r, n))), s.append(n))
             elif what == 'assign': self.emit('assign %d %s' % (v, hexs(data(r, n))), s.assign(n))
@@ -254,7 +256,8 @@ def small_scope_cases(depth, attach, alphabet=None):
     base = ['new', 'newdata 717273']            # v0 default, v1 owning "qrs"
     a = alphabet or (
         ['prepend 1 61', 'prepend 1 6162636465', 'append 1 -', 'append 1 78', 'append 1 78797a31', 'resize 1 0', 'resize 1 2', 'resize 1 5',
-         'reserve 1 8', 'rmfront 1 1', 'rmfront 1 9', 'rmback 1 0', 'rmback 1 1', 'rmback 1 9', 'assign 1 -', 'assign 1 4142', 'clear 1', 'free 1',
+         'reserve 1 8', 'rmfront 1 1', 'rmfront 1 9', 'rmback 1 0', 'rmback 1 1', 'rmback 1 9',
+         'rmfront 1 18446744073709551615', 'rmback 1 18446744073709551615', 'assign 1 -', 'assign 1 4142', 'clear 1', 'free 1',
          'swap 0 1', 'asg 0 1', 'asg 1 0', 'appendb 0 1', 'prependb 1 0', 'prepend 0 61', 'append 0 -', 'rmback 0 0', 'resize 0 0', 'eq 0 1',
          'asg 1 1', 'appendb 1 1', 'prependb 1 1'] +
         (['attach 1 3132333435', 'attach 0 -', 'attach 1 39'] if attach else []))
@@ -264,17 +267,129 @@ def small_scope_cases(depth, attach, alphabet=None):
     return out
 
 
+def _bytes(n, base=0x41):
+    return bytes(((base + i - 1) % 255) + 1 for i in range(n))          # never 0, position-dependent
+
+
+def branch_scope_cases(maxcap, count):
+    """Small exhaustive scope aimed at the case splits of the proofs (prepend_ok / resize_ok / append_ok /
+    remove_*_ok / reserve_ok / assign_ok): every owning state (capacity c <= maxcap, size, head-room) and
+    every attached state (length <= 4, front offset), each followed by every operation with the arguments
+    that sit exactly on and one past each branch condition, then one more append so that a damaged
+    terminator or window shows.  `count(label)` records the branch the shadow predicts."""
+    out = []
+
+    def emit(pro, sh, ops):
+        for o in ops:
+            t = sh.copy()
+            kind, n = o
+            if kind == 'prepend': lab = t.prepend(n); line = 'prepend 0 ' + hexs(_bytes(n, 0x61))
+            elif kind == 'append': lab = t.append(n); line = 'append 0 ' + hexs(_bytes(n, 0x61))
+            elif kind == 'assign': lab = t.assign(n); line = 'assign 0 ' + hexs(_bytes(n, 0x61))
+            elif kind == 'resize': lab = t.resize(n); line = 'resize 0 %d' % n
+            elif kind == 'reserve': lab = t.reserve(n); line = 'reserve 0 %d' % n
+            elif kind == 'rmfront': lab = t.rmfront(n); line = 'rmfront 0 %d' % n
+            elif kind == 'rmback': lab = t.rmback(n); line = 'rmback 0 %d' % n
+            elif kind == 'appendb': lab = 'appendb/self:' + t.append(t.size); line = 'appendb 0 0'
+            elif kind == 'prependb': lab = 'prependb/self:' + t.prepend(t.size); line = 'prependb 0 0'
+            else: lab = t.clear(); line = 'clear 0'
+            count('scope:' + lab)
+            out.append(pro + [line, 'append 0 7e', 'prepend 0 7c'])
+
+    def args(sh):
+        c, st, sz = sh.cap, sh.start, sh.size
+        room = c - st - sz
+        cand = []
+        for n in (0, st, st + 1, c - sz, c - sz + 1): cand.append(('prepend', n))
+        for n in (0, room, room + 1, c - sz, c - sz + 1): cand.append(('append', n))
+        for n in (0, sz - 1, sz, sz + 1, c - st, c - st + 1, c, c + 1): cand.append(('resize', n))
+        for n in (0, c, c + 1, sz - 1, sz, sz + 1): cand.append(('reserve', n))
+        for n in (0, c, c + 1): cand.append(('assign', n))
+        for n in (0, sz - 1, sz, sz + 1, 2**64 - 1, 2**64 - max(sz, 1), 2**63): cand.append(('rmfront', n)); cand.append(('rmback', n))
+        cand += [('appendb', 0), ('prependb', 0), ('clear', 0)]
+        seen, res = set(), []
+        for o in cand:
+            if o[1] >= 0 and o not in seen:
+                seen.add(o); res.append(o)
+        return res
+
+    for c in range(0, maxcap + 1):
+        for k in range(0, c + 1):
+            for f in range(0, k + 1):
+                sh = Sh(); sh.own(0, c)
+                pro = ['newcap %d' % c]
+                if k: pro.append('append 0 ' + hexs(_bytes(k))); sh.append(k)
+                if f: pro.append('rmfront 0 %d' % f); sh.rmfront(f)
+                emit(pro, sh, args(sh))
+    for k in range(0, 5):
+        for f in range(0, k + 1):
+            sh = Sh(); sh.attach(k)
+            pro = ['new', 'attach 0 ' + hexs(_bytes(k, 0x31))]
+            if f: pro.append('rmfront 0 %d' % f); sh.rmfront(f)
+            emit(pro, sh, args(sh))
+    return out
+
+
 class C08(Check):
     id = 'C08'
     comp = 'Buffer'
     extracted = ['coq/Buffer/model.mli', 'coq/Buffer/model.ml', 'ocaml/zconv.ml', 'ocaml/buffer_driver.ml']
     harness_sources = ['harness/buffer.cpp']
-    technique = ('machine-checked proof in Coq about a hand-written Gallina model; model tied to the code by an '
-                 'extracted-model vs implementation correspondence check')
-    level_text = ''
-    level_note = ''
+    technique = ('machine-checked proof in Coq about a hand-written Gallina model with explicit memory (allocation = list of '
+                 'capacity+1 cells, attached range = immutable byte list, every access through bounds-checked rd/wr); model tied '
+                 'to the code by an extracted-model vs ASan/UBSan-implementation correspondence check with guard bytes')
+    level_text = ('Theorems in Coq (18, no axioms), for every history of new/copy/attach/=/assign/prepend/append/resize/reserve/'
+                  'removeFront/removeBack/clear/free/swap/== over any number of Buffer variables, all sizes and front/back offsets, '
+                  'including v = v, v.append(v), v.prepend(v) and histories mixing attach with owning operations: '
+                  '(1) C08_memory_safe(_step): the model never produces OutOfBounds / WriteForeign / Overlap / BadState - the only '
+                  'error is BadArg, exactly when the reference object rejects the history (operand variable does not exist); '
+                  '(2) C08_refines_queue(_step): the exposed bytes agree with the reference byte queue wherever the queue is '
+                  'specified (bytes newly exposed by a growing resize are None in the reference), == answers agree; per method and '
+                  'per branch (prepend: head-room / in-place shift / reallocate; resize: reallocate / in place / compact to front / '
+                  'non-owning) C08_assign, C08_prepend, C08_resize, C08_append, C08_append_self, C08_remove_front, C08_remove_back, '
+                  'C08_reserve, C08_clear state the exact exposed bytes; (3) C08_terminator: in every reachable world every owning '
+                  'variable has the cell at bufferEnd inside its allocation of capacity+1 cells and it holds 0; (4) '
+                  'C08_invariant_initial_and_preserved / C08_rep_invariant: buffer <= start <= end <= buffer+capacity, allocation '
+                  'length = capacity+1, non-owning => capacity = 0 and the window lies inside the attached range or is the empty '
+                  'window on a _capacity field.  The model is tied to the code by running the extracted model, the extracted '
+                  'reference queue and the ASan/UBSan build of the working tree on the same histories: size, bytes, byte after the '
+                  'end, guard bytes and pristine copy of attached ranges, and the private pointers (own/cap/start offset/allocation '
+                  'size) are compared after every operation.')
+    level_note = ('The theorems are about the model; the tie to Buffer.hpp is differential (correspondence only), strengthened by an '
+                  'exhaustive small scope over all owning states with capacity <= 5 (8 in the thorough tier) x arguments on and one '
+                  'past every branch condition.  Validated by correspondence only (not modelled): the order of delete[] relative to '
+                  'the copy out of the old storage and double free (AddressSanitizer), operator!= / isEmpty consistency, '
+                  'capacity() after each call, the Server.cpp send backlog (uses append/removeFront only; not driven). Modelled as '
+                  'input: the bytes handed to attach are fresh foreign memory that nobody else changes and that does not alias a '
+                  'Buffer allocation; data pointers handed to assign/append/prepend do not point into the Buffer itself (except '
+                  'through the Buffer& overloads, which are modelled). Sizes are nat: wrap-around of pointer arithmetic for size '
+                  'arguments near 2^64 (removeFront(SIZE_MAX), resize(SIZE_MAX) making capacity+1 = 0) is outside the model. '
+                  'Trusted: Coq kernel, BufferSpec.v as the reading of the property text, extraction + OCaml driver, harness, '
+                  'g++ sanitizers.')
     rule = ''
-    assumptions = []
+    rule_static = ('cases = histories over 1..4 Buffer variables; four random streams steered by a shadow of the window state '
+                   '(owning: head-room/slack branches; attach: attach mixed with owning ops; alias: v=v, v.append(v), v.prepend(v), '
+                   'swap(v,v); long: 60..120 ops, sizes to 200) + exhaustive stream "branches" (every owning state with capacity <= 5, '
+                   'size, head-room and every attached state of length <= 4 with front offset x every operation with arguments on '
+                   'and one past each branch condition, followed by append+prepend) + exhaustive 2-op scope over a 36-op alphabet; removeFront/removeBack arguments include 2^64-1, 2^64-size, 2^63; '
+                   'a case is non-trivial when the implementation\'s own dump shows at least two of {head-room > 0, capacity slack, '
+                   'attached window, emptied non-owning window} and it has >= 3 mutating ops; distinct = distinct op text. ')
+    assumptions = ['size arguments and data lengths stay far below 2^63 (no pointer-arithmetic wrap; sizes are nat in the model)',
+                   'memory handed to attach() is not modified or freed by anyone else while attached and does not alias a Buffer allocation',
+                   'raw data pointers passed to assign/append/prepend do not point into the receiving Buffer',
+                   'operator new[] succeeds (no allocation failure modelled)']
+
+    # the case splits of the proofs: every one must be aimed at in every run (see extra_checks)
+    REQUIRED = ['prepend/headroom/O', 'prepend/shift/O', 'prepend/realloc/O', 'prepend/realloc/A', 'prepend/realloc/D',
+                'resize/realloc/O', 'resize/realloc/A', 'resize/realloc-shrink/A', 'resize/realloc/D', 'resize/inplace/O',
+                'resize/compact/O', 'resize/nonowning-zero/A', 'resize/nonowning-zero/D',
+                'append:resize/compact/O', 'append:resize/inplace/O', 'append:resize/realloc/O', 'append:resize/realloc/A',
+                'appendb/self:append:resize/compact/O', 'appendb/self:append:resize/inplace/O', 'appendb/self:append:resize/realloc/O',
+                'assign/inplace/O', 'assign/realloc/O', 'assign/realloc/A', 'assign/nonowning-empty/A', 'assign/nonowning-empty/D',
+                'reserve/noop/O', 'reserve/realloc/O', 'reserve/realloc/A', 'reserve/realloc-below-size/A',
+                'rmfront/part/O', 'rmfront/all/O', 'rmfront/over/O', 'rmfront/part/A', 'rmfront/all/A', 'rmfront/over/D',
+                'rmback/part/O', 'rmback/all/O', 'rmback/over/O', 'rmback/part/A', 'rmback/all/A', 'rmback/over/D',
+                'clear/O', 'clear/A', 'clear/D']
 
     def __init__(self):
         super().__init__()
@@ -301,8 +416,14 @@ class C08(Check):
                           note='b = b, b.append(b), b.prepend(b), b.swap(b), b == b in every ownership state'))
         out.append(Stream('long', self.gen_stream(rng, 200 if th else 40, (60, 120), True, True, big=True),
                           note='long histories, sizes up to 200'))
+        def count(l):
+            self.branch_counts[l] = self.branch_counts.get(l, 0) + 1
+        mc = 8 if th else 5
+        out.append(Stream('branches', branch_scope_cases(mc, count), exhaustive=True,
+                          note='every owning state with capacity <= %d (size, head-room) and every attached state of length <= 4 '
+                               '(front offset) x every operation with arguments on and one past each branch condition' % mc))
         out.append(Stream('scope2', small_scope_cases(2, True), exhaustive=True,
-                          note='every history of 2 operations over a 34-operation alphabet after a fixed prologue'))
+                          note='every history of 2 operations over a 36-operation alphabet (incl. removeFront/removeBack(2^64-1)) after a fixed prologue'))
         if th:
             core = ['prepend 1 61', 'prepend 1 6162636465', 'append 1 -', 'append 1 78797a31', 'resize 1 0', 'resize 1 2', 'resize 1 5',
                     'reserve 1 8', 'rmfront 1 1', 'rmfront 1 9', 'rmback 1 0', 'rmback 1 1', 'assign 1 -', 'assign 1 4142', 'clear 1', 'free 1',
@@ -337,8 +458,17 @@ class C08(Check):
         return len(feats) >= 2 and muts >= 3
 
     def extra_checks(self, tier, rng, ctx):
-        # record which branches the steered generators aimed at (goes into the evidence rule text)
-        self.rule_extra = dict(sorted(self.branch_counts.items()))
+        # which proof cases the generated histories aimed at (scope: = exhaustive stream, plain = steered random streams)
+        bc = self.branch_counts
+        hit = {}
+        for lab, n in bc.items():
+            core = lab[6:] if lab.startswith('scope:') else lab
+            hit[core] = hit.get(core, 0) + n
+        missing = [r for r in self.REQUIRED if hit.get(r, 0) == 0]
+        if missing:
+            raise RuntimeError('C08 generators no longer aim at proof case(s): ' + ', '.join(missing))
+        self.rule = self.rule_static + 'proof cases aimed at in this run (count): ' + ', '.join(
+            '%s=%d' % (r, hit[r]) for r in self.REQUIRED)
 
 
 CHECK = C08
